@@ -80,10 +80,13 @@ pub fn is_cyclic(doc: &q::Document) -> bool {
 }
 
 /// run every rule alone and the default plan, in this process
-pub fn observe(schema: &s::Document, doc: &q::Document, skip_merge: bool) -> J {
+pub fn observe(schema: &s::Document, doc: &q::Document, skip_merge: bool) -> J { observe_rules(schema, doc, skip_merge, &RULES, true) }
+
+/// run the given rules alone (and optionally the default plan)
+pub fn observe_rules(schema: &s::Document, doc: &q::Document, skip_merge: bool, rules: &[&str], with_plan: bool) -> J {
     let mut single = serde_json::Map::new();
     let mut panicked = false;
-    for r in RULES.iter() {
+    for r in rules.iter() {
         if skip_merge && *r == "OverlappingFieldsCanBeMerged" { continue; }
         let res = std::panic::catch_unwind(std::panic::AssertUnwindSafe(|| { let plan = plan_of(&[r]); validate(schema, doc, &plan) }));
         match res {
@@ -95,6 +98,7 @@ pub fn observe(schema: &s::Document, doc: &q::Document, skip_merge: bool) -> J {
             Err(_) => { panicked = true; }
         }
     }
+    if !with_plan { return json!({"outcome": if panicked { "panic" } else { "ok" }, "single": single, "plan": J::Null, "mergeSkipped": skip_merge}); }
     let names: Vec<&str> = RULES.iter().cloned().filter(|r| !(skip_merge && *r == "OverlappingFieldsCanBeMerged")).collect();
     let res = std::panic::catch_unwind(std::panic::AssertUnwindSafe(|| { let plan = default_rules_validation_plan(); if skip_merge { validate(schema, doc, &plan_of(&names)) } else { validate(schema, doc, &plan) } }));
     let plan_obs = match res {
@@ -180,4 +184,12 @@ pub fn validate_case_plans(si: &gen::SchemaInfo, text: &str, tmpdir: &str, plans
     }
     out.push(json!({"op": "validate", "src": text, "doc": enc::document(&doc), "cyclic": cyclic, "impl": obs,
         "positions": positions(&doc), "planRuns": plan_runs}));
+}
+
+/// a case restricted to some rules (used by the per-rule enumerators); acyclic documents only run in-process
+pub fn rules_case(si: &gen::SchemaInfo, text: &str, rules: &[&str], tmpdir: &str, out: &mut Out) {
+    let doc = match gen::parse_doc(text) { Some(d) => d, None => return };
+    let cyclic = is_cyclic(&doc);
+    let obs = if cyclic && rules.contains(&"OverlappingFieldsCanBeMerged") { observe_isolated(si, text, tmpdir) } else { observe_rules(&si.doc, &doc, false, rules, false) };
+    out.push(json!({"op": "validate", "src": text, "doc": enc::document(&doc), "cyclic": cyclic, "rules": rules, "impl": obs}));
 }
